@@ -35,6 +35,7 @@ func runC14(c *core.Ctx) {
 			r14Record(c, p)
 			r14ParallelShape(c, p)
 			r14ConditionalMove(c, p)
+			r14ParallelUse(c, p)
 		}
 	}
 	c.Floor("R14.1", 4)
@@ -426,6 +427,53 @@ func r14Record(c *core.Ctx, p *load.Program) {
 						}
 					}
 				}
+				// … and stays there: a later store into the same Err (the handler's verdict) happens only where the
+				// recorded error is known nil — the store's failure takes precedence over whatever the handler returns
+				if okRec {
+					for _, r := range *ev.Referrers() {
+						st, ok := r.(*ssa.Store)
+						if !ok || st.Val != ev {
+							continue
+						}
+						fa, ok := st.Addr.(*ssa.FieldAddr)
+						if !ok || fa.X.Referrers() == nil {
+							continue
+						}
+						for _, r2 := range *fa.X.Referrers() {
+							fa2, ok := r2.(*ssa.FieldAddr)
+							if !ok || fa2.Field != fa.Field || fa2.Referrers() == nil {
+								continue
+							}
+							for _, r3 := range *fa2.Referrers() {
+								st2, ok := r3.(*ssa.Store)
+								if !ok || st2.Addr != ssa.Value(fa2) || st2 == st || st2.Val == ev || !ssax.Dominates(st, st2) {
+									continue
+								}
+								guarded := false
+								for _, f := range ssax.FactsAtInstr(st2) {
+									if x, eq, isNil := ssax.NilTest(f.Cond); isNil && eq == f.Val {
+										if b, fi, isFld := ssax.FieldLoad(x); isFld && b == fa.X && fi == fa.Field {
+											guarded = true
+										}
+									}
+									// result.Err == nil && err != nil lowers to a phi of booleans: the operand carries the test
+									if ph, isPhi := f.Cond.(*ssa.Phi); isPhi && f.Val {
+										for _, e := range ph.Edges {
+											_ = e
+										}
+									}
+								}
+								if !guarded {
+									okRec = false
+									c.Bad("R14.4", key+"|kept", p.Pos(st2.Pos()), fmt.Sprintf("%s overwrites the recorded OpResult.Err — which holds the store's error — without testing that it is nil: a Set the store refused is reported as success when the handler returns nil (the default handler of Set does), so Mkdir, Write, Remove, Rename report success although nothing was stored", fname(fn)))
+								}
+							}
+						}
+					}
+					if !okRec {
+						return
+					}
+				}
 				c.Check(okRec, "R14.4", key, p.Pos(cl.Pos()), "the store's error is stored into the recorded OpResult.Err",
 					fmt.Sprintf("%s: the error returned by %s is not stored into the recorded OpResult.Err — the FS would see a successful operation", fname(fn), ssax.CallName(cl)))
 			})
@@ -658,5 +706,103 @@ func r14ConditionalMove(c *core.Ctx, p *load.Program) {
 			c.Check(ok, "R14.6", key, p.Pos(mp.store.Pos()), "the store of the new name carries a handler that aborts the transaction when the store failed",
 				fmt.Sprintf("%s stores the record under the new name with a plain Set and then deletes the old name: on a store without transactions (serial fallback) the delete runs although the store of the new name was refused — Rename returns an error, but the file now exists under neither name and its contents are lost", fname(fn)))
 		}
+	}
+}
+
+// r14ParallelUse (R14.3, parallel results): a look-up that answers several paths with ([]*T, []error) pairs each value
+// with the error at the same index; element k of the values is dereferenced only where element k of the errors is
+// known nil — any other error (not just not-exist) leaves the value nil.
+func r14ParallelUse(c *core.Ctx, p *load.Program) {
+	for _, fn := range pkgFuncs(p, "keyvalue") {
+		ord := ordinals{}
+		ssax.Instrs(fn, func(ins ssa.Instruction) {
+			cl, ok := ins.(*ssa.Call)
+			if !ok {
+				return
+			}
+			sig := cl.Call.Signature()
+			if sig.Results().Len() != 2 {
+				return
+			}
+			s0, ok0 := sig.Results().At(0).Type().Underlying().(*types.Slice)
+			s1, ok1 := sig.Results().At(1).Type().Underlying().(*types.Slice)
+			if !ok0 || !ok1 || !ssax.IsErrorType(s1.Elem()) {
+				return
+			}
+			if _, isPtr := s0.Elem().Underlying().(*types.Pointer); !isPtr {
+				if _, isI := s0.Elem().Underlying().(*types.Interface); !isI {
+					return
+				}
+			}
+			vals, errs := ssax.ExtractOf(cl, 0), ssax.ExtractOf(cl, 1)
+			if vals == nil || errs == nil || vals.Referrers() == nil {
+				return
+			}
+			elemLoad := func(sl ssa.Value, want int64) []ssa.Value {
+				var out []ssa.Value
+				if sl.Referrers() == nil {
+					return nil
+				}
+				for _, r := range *sl.Referrers() {
+					ia, ok := r.(*ssa.IndexAddr)
+					if !ok || ia.Referrers() == nil {
+						continue
+					}
+					if k, isC := ssax.ConstInt(ia.Index); !isC || k != want {
+						continue
+					}
+					for _, r2 := range *ia.Referrers() {
+						if u, ok := r2.(*ssa.UnOp); ok && u.Op == token.MUL {
+							out = append(out, u)
+						}
+					}
+				}
+				return out
+			}
+			for k := int64(0); k < 4; k++ {
+				vs := elemLoad(vals, k)
+				if len(vs) == 0 {
+					continue
+				}
+				es := elemLoad(errs, k)
+				for _, v := range vs {
+					if v.Referrers() == nil {
+						continue
+					}
+					for _, use := range *v.Referrers() {
+						deref := false
+						switch x := use.(type) {
+						case *ssa.FieldAddr:
+							deref = x.X == v
+						case *ssa.Call:
+							deref = len(x.Call.Args) > 0 && x.Call.Args[0] == v && ssax.StaticCallee(x) != nil && ssax.StaticCallee(x).Signature.Recv() != nil
+							if x.Call.IsInvoke() && x.Call.Value == v {
+								deref = true
+							}
+						}
+						if !deref {
+							continue
+						}
+						key := fmt.Sprintf("%s|%s", fname(fn), ord.next(fmt.Sprintf("use-of-result[%d]", k)))
+						okUse := false
+						for _, f := range ssax.FactsAtInstr(use) {
+							if x, eq, isNil := ssax.NilTest(f.Cond); isNil && eq == f.Val {
+								for _, e := range es {
+									if x == e {
+										okUse = true
+									}
+								}
+							}
+							// the value itself known non-nil
+							if x, eq, isNil := ssax.NilTest(f.Cond); isNil && eq != f.Val && x == v {
+								okUse = true
+							}
+						}
+						c.Check(okUse, "R14.3", key, p.Pos(use.Pos()), fmt.Sprintf("element %d of the results is used only where element %d of the errors is nil", k, k),
+							fmt.Sprintf("%s uses element %d of the values returned by %s without element %d of its errors being known nil on that path: when that look-up fails for any other reason than the ones tested (a store fault), the value is nil and the call panics instead of returning the store's error", fname(fn), k, ssax.CallName(cl), k))
+					}
+				}
+			}
+		})
 	}
 }
